@@ -2,6 +2,7 @@ import MW.Staking.Facts
 import MW.Inv.WorldStake
 import MW.Inv.WorldRecover
 import MW.Inv.Demo
+import MW.Staking.Interface
 /-!
 # C11 — Protocol fee accounting on rewards
 -/
@@ -168,5 +169,15 @@ open MW.Chain MW.Chain.Demo
     ((r1.1.bal demoSelf demoD : Int) - r0.1.bal demoSelf demoD,
      (r1.1.pkts.getLast?.map fun p => (p.receiver == demoStaker, p.coin.amount, p.state == .pending)))) == some (100, some (true, 900, true))
 end Demo
+
+/-- the statements of this file quantify over every message the staking contract accepts: the `ExecuteMsg` the source
+declares (table regenerated from /repo's `msg.rs` on every run) has exactly the variants, fields and types of the
+model's `ExecMsg`, and the contract exports exactly the modelled entry points.  A message or entry point added to the
+source — which no generated history would exercise — breaks this theorem -/
+theorem messages_are_the_modelled_ones :
+    MW.Generated.Interface.staking_execute = MW.Interface.model_staking_execute
+    ∧ (∀ m : MW.Staking.ExecMsg, MW.Interface.execTag m ∈ MW.Interface.names MW.Generated.Interface.staking_execute)
+    ∧ MW.Generated.Interface.staking_entry_points = ["execute", "instantiate", "migrate", "query", "reply", "sudo"] :=
+  ⟨MW.Interface.staking_execute_eq, MW.Interface.staking_execute_covered.2, MW.Interface.staking_entry_points_eq⟩
 
 end MW.Props.C11
